@@ -18,6 +18,16 @@ def _cache(text, ref):
             'TLA+ layer P/I refinement by TLC + trace validation of replayed TLC behaviours')
 
 
+def _key(text):
+    return ('key', 'model_checking', text + ' Python\'s argument binding is transcribed as the oracle (KeyP.PyBind, checked against the '
+            'interpreter on every event); _keygen and the keymaps are transcribed as layer I (KeyImpl) and TLC checks every pair of '
+            'calls of every catalogue group under all 32 keymap configurations; TLC emits the catalogue, every group is materialised '
+            'as a real function and run through real klepto caches and keygen, and TLC judges every recorded call (KeyTrace).',
+            '4 (C09/C10/C11, C17)', 'trusted: TLC, harness/key_driver.py; bounded catalogue (48 signature shapes, values {1,2,1.0,True,"a","x"}, '
+            '<=2 positionals, <=2 keywords); methods/partials not in the key catalogue',
+            'TLA+ transcription of binding + keygen, exhaustive pair check by TLC, catalogue replay + trace validation')
+
+
 CLAIMED = {
     # pid: (engine, category, text, design_ref, level_note, technique)
     'C01': _cache('Clauses C01.*: every completed call returns F(args); memory and archives only ever hold F values.', '4 (C01)'),
@@ -33,6 +43,10 @@ CLAIMED = {
             'every step is judged by TLC (StoreTrace).', '4 (C08)',
             'trusted: TLC, the recorder (harness/store_checks.py); keys k1..k3 / small int values; HDF5/sqlalchemy backends absent',
             'TLA+ layer P/I refinement by TLC + trace validation of replayed TLC behaviours'),
+    'C09': _key('C09.*: calls with identical bindings get one key (every keymap class, flat or not, typed or not) and the second is served from the cache.'),
+    'C10': _key('C10.*: calls binding unequal values (or, typed, differently typed values) to a non-ignored parameter never share a key under an information-preserving keymap; a hit returns the own result.'),
+    'C11': _key('C11.*: calls differing only in ignored arguments (name, index, *, **) share a key and are not re-evaluated; everything else still discriminates.'),
+    'C17': _key('C17.*: keys computed in three interpreter sessions (PYTHONHASHSEED 0, 1, random) are byte-identical; a writer session archives to file/dir/sqlite and reader sessions with other seeds find every call as a load.'),
     'C15': _cache('Clauses C15.*: exactly one of hit/load/miss is incremented according to the pre-state class; size/maxsize; clear semantics.', '4 (C15)'),
     'C16': _cache('Clauses C16.*: a raising call leaves every observable unchanged and re-raises the same object after one evaluation; '
                   'safe decorators fall back to plain evaluation for unkeyable arguments.', '4 (C16)'),
